@@ -72,12 +72,12 @@ type c06hObs struct {
 const c06hCanary = "zz-canary"
 
 // c06hLate counts updates that did not become visible within the full bound although the change demonstrably reached the
-// notification mechanism. On a healthy tree this never happens; after a few of them (a broken watcher / syncer) the
+// notification mechanism. On a healthy tree this never happens; after the first one (a broken watcher / syncer) the
 // remaining waits of this process are cut short so that a failing run stays bounded.
 var c06hLate int32
 
 func c06hBound(full time.Duration) time.Duration {
-	if atomic.LoadInt32(&c06hLate) >= 3 {
+	if atomic.LoadInt32(&c06hLate) >= 1 {
 		return 150 * time.Millisecond
 	}
 	return full
